@@ -144,10 +144,15 @@ class Item:
         self.capture_text = r.choice({'d': ['default', 'Default', 'DEFAULT'], 'a': ['always', 'Always', 'ALWAYS'], 'n': ['never', 'Never', 'NEVER']}[self.capture])
         self.explicit_capture = self.capture != 'd' or r.random() < 0.2
         self.replace = []
-        if r.random() < 0.25:
-            cands = [m for m in mods] + ['pg', 'gen_derive', self.ident, 'nomatch']
+        if r.random() < 0.35:
+            cands = [m for m in mods] + ['pg', 'gen_derive', 'gen_derive', self.ident, self.ident, 'nomatch']
             for _ in range(r.choice([1, 1, 2, 3])):
                 self.replace.append((r.choice(cands), r.choice(['renamed', 'X', 'r#new', r.choice(cands)])))
+            if r.random() < 0.5:
+                # the same search segment named twice with different replacements: the first row wins
+                key = r.choice([self.replace[r.randrange(len(self.replace))][0], 'gen_derive', self.ident])
+                self.replace.insert(r.randrange(len(self.replace) + 1), (key, r.choice(['dup', 'Other', 'z9'])))
+                self.replace.insert(r.randrange(len(self.replace) + 1), (key, r.choice(['dup2', 'Another', 'q_1'])))
         self.docs = doc_lines(r)
         self.encodable = True
         self.earlier = earlier
@@ -191,7 +196,9 @@ class Item:
             me = Adt(self, [Param(p) for p in self.params])
             return r.choice([T('opt', T('box', me)), T('vec', me), T('box', T('opt', me)) if False else T('vec', me)])
         if self.lifetime and c < 0.55:
-            return T('lref_str')
+            # the lifetime as a reference lifetime and as a generic argument (the derive rewrites both to 'static)
+            return r.choice([T('lref_str'), T('lref_str'), T('lcow_str'), T('vec', T('lcow_str')), T('opt', T('lref_str')),
+                             T('tup', T('lcow_str'), T('lref_str'))])
         if c < 0.62:
             # containers mixing PhantomData with real data: only the marker itself may be erased
             ph = T('ph', r.choice(P) if P else T('u', n=8))
@@ -226,7 +233,19 @@ class Item:
             return 'u', []
         n = r.choice([1, 1, 2, 3, 4])
         names = r.sample(FIELDS, n)
-        return shape, [self.gen_field(r, names[i] if shape == 'n' else None) for i in range(n)]
+        fields = [self.gen_field(r, names[i] if shape == 'n' else None) for i in range(n)]
+        if r.random() < 0.25:
+            # attribute interplay inside one member list: a skipped, a compact and a plain integer member of different
+            # widths in every relative order (anything computed per position before/after filtering shows here)
+            free = [x for x in FIELDS if x not in names]
+            trio = [Field(None, T('u', n=r.choice([8, 16])), skip=True), Field(None, T('u', n=r.choice([32, 64])), compact=True),
+                    Field(None, T('u', n=r.choice([64, 128])))]
+            r.shuffle(trio)
+            for k, f in enumerate(trio):
+                f.ident = free[k] if shape == 'n' else None
+                f.docs = doc_lines(r)
+                fields.insert(r.randrange(len(fields) + 1), f)
+        return shape, fields
 
     def gen_variants(self, r):
         n = r.choice([0, 1, 2, 3, 4, 6])
@@ -284,7 +303,7 @@ class Item:
         def used(name):
             return any(isinstance(s, Param) and s.name == name for f in self.all_fields() for s in nonrec(f.ty))
         extra = [Field(None, T('ph', Param(p))) for p in self.params if not used(p)]
-        if self.lifetime and not any(s.kind == 'lref_str' for f in self.all_fields() for s in f.ty.subterms()):
+        if self.lifetime and not any(s.kind in ('lref_str', 'lcow_str') for f in self.all_fields() for s in f.ty.subterms()):
             extra.append(Field(None, T('lref_str')))
         if not extra:
             return
@@ -353,6 +372,8 @@ class Item:
         """type text as written in the declaration (lifetime 'a where a reference is generic)"""
         if t.kind == 'lref_str':
             return "&'a str"
+        if t.kind == 'lcow_str':
+            return "std::borrow::Cow<'a, str>"
         if isinstance(t, Param):
             return t.name
         if isinstance(t, Adt):
@@ -417,6 +438,8 @@ class Item:
     def inst_type(self, t, env):
         if t.kind == 'lref_str':
             return T('ref', T('str'))
+        if t.kind == 'lcow_str':
+            return T('cow', T('str'))
         return subst_l(t, env)
 
     def field_proto(self, f, env):
@@ -517,6 +540,8 @@ def strip_raw(s):
 def subst_l(t, env):
     if t.kind == 'lref_str':
         return T('ref', T('str'))
+    if t.kind == 'lcow_str':
+        return T('cow', T('str'))
     if isinstance(t, Param):
         return env[t.name]
     if isinstance(t, Adt):
@@ -533,6 +558,8 @@ def main():
     ap.add_argument('--vals', type=int, default=3)
     ap.add_argument('--out', required=True)
     ap.add_argument('--fp', action='store_true', help='fingerprint corpus: no BitVec, no value cases')
+    ap.add_argument('--exclude', default='', help='comma separated item numbers to leave out (with everything that refers to them): '
+                    'the random choices stay those of the full corpus, so the remaining cases are unchanged')
     a = ap.parse_args()
     texpr.NO_BITVEC = a.fp
     r = random.Random(a.seed * 7919 + 13)
@@ -543,14 +570,28 @@ def main():
         mods = [r.choice(MODS) + str(k) for _ in range(depth)]
         items.append(Item(k, r, [i for i in items if not i.lifetime][-12:], mods))
 
+    # items left out on request, and everything that refers to one of them (references only go to earlier items)
+    excluded = set()
+    want_out = {int(x) for x in a.exclude.split(',') if x.strip()}
+    for it in items:
+        if it.num in want_out or any(isinstance(sub, Adt) and sub.item is not it and sub.item.num in excluded
+                                     for f in it.all_fields() for sub in f.ty.subterms()):
+            excluded.add(it.num)
+
+    def items_of(t):
+        return sorted({sub.item.num for sub in t.subterms() if isinstance(sub, Adt)})
+    TAGS = {}   # index into L -> item numbers the entry belongs to (for mapping compiler errors back to items)
     L = ['// @generated by harness/gen/gen_derive.py — do not edit', '#![allow(unused, non_camel_case_types, non_snake_case)]',
          'use scale::Encode;', 'use scale_info::{MetaType, PortableRegistry, Registry};', 'use crate::proto::*;']
     # declarations, nested in modules
     for it in items:
+        if it.num in excluded:
+            continue
         ind = ''
         for m in it.mods:
             L.append(f'{ind}pub mod {m} {{')
             ind += '    '
+        TAGS[len(L)] = [it.num]
         L.append(it.render(ind).rstrip('\n'))
         for _ in it.mods:
             ind = ind[:-4]
@@ -580,7 +621,8 @@ def main():
         table.append(t)
 
     for it, args in insts:
-        add(Adt(it, args))
+        if it.num not in excluded:
+            add(Adt(it, args))
     i = 0
     while i < len(table):
         t = table[i]
@@ -595,15 +637,21 @@ def main():
         i += 1
     L.append('pub fn table() -> Vec<(MetaType, &\'static str)> {\n    vec![')
     for t in table:
+        TAGS[len(L)] = items_of(t)
         L.append(f'        (MetaType::new::<{t.rust()}>(), "{t.proto()}"),')
     L.append('    ]\n}')
     L.append('pub fn derive_cases(table: &[(MetaType, &\'static str)], out: &mut dyn FnMut(String)) {')
     for k in range(0 if a.fp else len(insts)):
-        L.append(f'    dcase_{k}(table, out);')
+        if insts[k][0].num not in excluded:
+            L.append(f'    dcase_{k}(table, out);')
     L.append('}')
     nvals = 0
     for k, (it, args) in enumerate([] if a.fp else insts):
         me = Adt(it, args)
+        keep, L_all = it.num not in excluded, L
+        if not keep:
+            L = []          # the values are still drawn (same random stream), the text is dropped
+        TAGS_at = len(L)
         L.append(f'fn dcase_{k}(table: &[(MetaType, &\'static str)], out: &mut dyn FnMut(String)) {{')
         L.append(f'    type X = {me.rust()};')
         L.append('    let m = MetaType::new::<X>();')
@@ -628,7 +676,22 @@ def main():
             L.append(f'    {{ let v: X = {e}; s.push_str(&format!(" {v} {{}}", hex(&v.encode()))); }}')
             nvals += 1
         L.append('    out(s);\n}')
+        if keep:
+            for j in range(TAGS_at, len(L)):
+                TAGS[j] = [it.num]
+        else:
+            L = L_all
     open(a.out, 'w').write('\n'.join(L) + '\n')
+    # line map: [first line, last line, item numbers] per tagged entry (1-based lines of the generated file)
+    line, ranges = 1, []
+    for j, entry in enumerate(L):
+        nl = entry.count('\n') + 1
+        if j in TAGS:
+            ranges.append([line, line + nl - 1, TAGS[j]])
+        line += nl
+    import json
+    json.dump(dict(ranges=ranges, excluded=sorted(excluded),
+                   source={it.num: it.render('') for it in items}), open(a.out + '.map', 'w'))
     print(f'items {len(items)} instantiations {len(insts)} table {len(table)} values {nvals}', file=sys.stderr)
 
 
